@@ -30,6 +30,10 @@ CLAIMED = {
          "analytic range reduction for all arguments (omega), kernel-checked enumeration (52 decide+kernel chunks, no native_decide) of the polynomial at all 205 887 reduced arguments against a "
          "degree-15 Taylor enclosure of Real.sin derived from Complex.exp_bound', and the real-analysis glue (sin(x+n*pi), Lipschitz, arcsin o sin, bounds on pi). C09_range and C09_periodic for every |v| < 2^62 and every integer k. "
          "Tie: exhaustive correspondence of sin/cos on [-2pi-2, 2pi+2] raw (3 build legs) + random/boundary up to 2^62.", "reflective kernel enumeration + Mathlib enclosures + omega; exhaustive correspondence"),
+ "C19": ("proof", "Against the tables REGENERATED from the current *_table.h: C19_sin_tab/C19_cos_tab (all 722 entries within 2 ulp of Real.sin/cos(i deg)), C19_tan_tab (255 entries within 2 ulp*(1+tan^2)), "
+         "C19_sqrt_tab (256 entries within 1 of 65536*sqrt(i/256+31/2^18)) by kernel evaluation (decide +kernel) of Nat-only Taylor enclosure checkers with proved soundness; "
+         "C19_sin_aprox / C19_cos_aprox for EVERY int32 d (index in bounds, result = entry of d mod 360, within 2 ulp of sin/cos(d deg)); sqrt_aprox edge cases. "
+         "PARTIAL: the 2% bound of sqrt_aprox on [1,2^37) and the 1.25 bound of atan_index_aprox are stated (C19_*_full) and carried by exhaustive/cell-boundary correspondence + oracle only.", "kernel evaluation over regenerated tables + Mathlib enclosures; omega for index reduction; correspondence"),
 }
 NA_DEFAULT = "check under construction in this round (the framework is built property by property); not a claim that the technique cannot apply"
 
